@@ -85,7 +85,7 @@ def components(check: Check) -> None:
     check.require(ok, "T4", "FllExporter.input_variable/delegates", "input variables are printed by the shared variable printer", loc(iv))
     rov = Resolver(p, ov_fn)
     deleg = [rov.term(c, n) for n, c in rov.cfg.all_calls() if rov.term(c.func, n) == ("attr", ("param", "self"), "variable")]
-    ok = bool(deleg) and dict(deleg[0][3]).get("terms") == ("const", False)
+    ok = bool(deleg) and (dict(deleg[0][3]).get("terms") == ("const", False) or (len(deleg[0][2]) >= 2 and deleg[0][2][1] == ("const", False)))
     check.require(ok, "T4", "FllExporter.output_variable/delegates",
                   "output variables start with the shared variable lines (terms printed after the output-specific lines)", loc(ov_fn))
     sets = {
@@ -135,7 +135,7 @@ def components(check: Check) -> None:
     # sub-component lists
     def prints_all(efn, prm: str, coll: str, meth: str) -> int:
         """Line of the comprehension `self.<meth>(x) for x in <prm>.<coll>` (0 when absent)."""
-        for x in ast.walk(efn.node):
+        for x in ast.walk(efn.analysis_node):
             if isinstance(x, (ast.ListComp, ast.GeneratorExp)) and len(x.generators) == 1 and not x.generators[0].ifs:
                 g = x.generators[0]
                 if unparse(g.iter) == f"{prm}.{coll}" and isinstance(g.target, ast.Name):
@@ -143,6 +143,12 @@ def components(check: Check) -> None:
                         if isinstance(c, ast.Call) and isinstance(c.func, ast.Attribute) and c.func.attr == meth and unparse(c.func.value) == "self" and \
                                 len(c.args) == 1 and isinstance(c.args[0], ast.Name) and c.args[0].id == g.target.id:
                             return x.lineno * 1000 + x.col_offset
+            if isinstance(x, ast.For) and unparse(x.iter) == f"{prm}.{coll}" and isinstance(x.target, ast.Name) and not x.orelse:
+                for c in ast.walk(x):
+                    if isinstance(c, ast.Call) and isinstance(c.func, ast.Attribute) and c.func.attr == meth and unparse(c.func.value) == "self" and \
+                            len(c.args) == 1 and isinstance(c.args[0], ast.Name) and c.args[0].id == x.target.id and \
+                            not any(isinstance(y, (ast.Break, ast.Continue, ast.Return)) for y in ast.walk(x)):
+                        return x.lineno * 1000 + x.col_offset
         return 0
 
     for efn, meth, coll, comp in ((var_fn, "term", "terms", "Variable"), (ov_fn, "term", "terms", "OutputVariable"),
